@@ -237,7 +237,7 @@ PRIMITIVES = {
         ("if-test", 0, "self.external_solver == 'highs'"),
         ("if-body", 0, "return self.solver.qsum(expr)")]),
     "add_variables": dict(args="self, indexes, name_prefix: str, lb=0, ub=1, var_type='integer'", path=[
-        ("def-first", 0, "if isinstance(param, (int, float)):\n    return [float(param)] * len(indexes)"),
+        ("def-first", 0, "if isinstance(param, numbers.Real):\n    return [float(param)] * len(indexes)"),
         ("stmt", 1, "lbs = _materialize_bounds(lb, 0.0, 'lb')"),
         ("stmt", 2, "ubs = _materialize_bounds(ub, 1.0, 'ub')"),
         ("if-test", 3, "self.external_solver == 'highs'"),
